@@ -1,13 +1,289 @@
 /-
   x86-64 simulation, opcode class `jumpOpcodes`: the instruction sequence the JIT emits for each of these eBPF
   instructions, run by the x86-64 machine model, computes what `EngineSem.jitExec` says (statement: `JitSim.ArmSim`).
+
+  Layout: `jmp_branch_next` (the eBPF side of a branch that continues), `jmp_cond_core` / `jmp_ja_core` (the machine
+  side: `cmp`/`test` then `jcc`, resp. one `jmp`, from the checker's facts), the four `exec` equations of `cmp`/`test`,
+  then one theorem per opcode produced by the same tactic (`jmp_op`), which selects the flags lemma of
+  `JumpFlags.lean` by rewriting.
 -/
-import RbpfModel.Lemmas.X86Sim.Base
+import RbpfModel.Lemmas.X86Sim.JumpFlags
 namespace Rbpf.JitSim
-open Rbpf.X86 (Cfg St Out Instr step exec decode fetch readMem writeMem)
+open Rbpf.X86 (Cfg St Out Instr step exec decode fetch readMem writeMem Cc flagsSub flagsLogic msb trunc)
 open Rbpf.JitAst (AI Tgt checkSeq window)
 
+/-- the eBPF side of a branch that continues: either not taken (`s' = s`) or taken to a non-negative target -/
+theorem jmp_branch_next (s s' : State) (off : BitVec 16) (cond : Bool) (pc : Nat) (hpc : s.pc = pc + 1)
+    (h : Interp.branch s off cond = .next s') :
+    (cond = false ∧ s' = s) ∨ (cond = true ∧ s' = { s with pc := s'.pc } ∧ (s'.pc : Int) = (pc : Int) + off.toInt + 1) := by
+  unfold Interp.branch Interp.jumpTo at h
+  cases cond with
+  | false => simp at h; exact Or.inl ⟨rfl, h.symm⟩
+  | true =>
+    simp only [if_true] at h
+    split at h
+    · cases h
+    · rename_i hn
+      injection h with h
+      subst h
+      refine Or.inr ⟨rfl, rfl, ?_⟩
+      simp only [hpc] at hn ⊢
+      omega
+
+theorem jmp_cond_core (c : Cfg) (tgt : Tgt → Option Nat) (pc a b retAddr : Nat) (σ : St) (s s' : State)
+    (x : Instr) (cc : Cc) (off : BitVec 16) (f : X86.Flags) (cond : Bool)
+    (hchk : checkSeq c.code tgt a [.i x, .jcc cc (.pc ((pc : Int) + off.toInt + 1))] = some b)
+    (hb : c.codeBase + b < 2 ^ 63) (hrip : σ.rip = c.codeBase + a)
+    (hrel : Rel0 retAddr σ s) (hpc : s.pc = pc + 1)
+    (hx : ∀ next, exec c σ x next = .next { σ with rip := next, flags := some f })
+    (hcc : cc.holds f = cond)
+    (hex : Interp.branch s off cond = .next s') :
+    ∃ k σ', stepsN c k σ = some σ' ∧ Rel0 retAddr σ' s' ∧ topBytes σ' s' = topBytes σ s ∧
+      ((s'.pc = pc + 1 ∧ σ'.rip = c.codeBase + b) ∨
+       (∃ l, tgt (.pc (s'.pc : Int)) = some l ∧ σ'.rip = c.codeBase + l)) := by
+  obtain ⟨n1, hd1, hchk2⟩ := checkSeq_i _ _ _ _ _ _ hchk
+  obtain ⟨n2, rel, l, hd2, htgt, hland, hchk3⟩ := checkSeq_jcc _ _ _ _ _ _ _ hchk2
+  rw [checkSeq_nil] at hchk3
+  have hbe : a + n1 + n2 = b := by injection hchk3
+  have hs1 := step_at c σ a n1 x hrip hd1
+  rw [hx] at hs1
+  have hs2 := step_at c { σ with rip := c.codeBase + a + n1, flags := some f } (a + n1) n2 (.jcc cc rel)
+    (by simp only [Nat.add_assoc]) hd2
+  have hsteps : ∀ σ2, exec c { σ with rip := c.codeBase + a + n1, flags := some f } (.jcc cc rel) (c.codeBase + (a + n1) + n2) = .next σ2 →
+      stepsN c 2 σ = some σ2 := by
+    intro σ2 h2
+    rw [h2] at hs2
+    exact stepsN_add c 1 1 σ _ σ2 (stepsN_one c _ _ hs1) (stepsN_one c _ _ hs2)
+  rcases jmp_branch_next s s' off cond pc hpc hex with ⟨hc, hs'⟩ | ⟨hc, hs', hpc'⟩
+  · subst hs'
+    refine ⟨2, { σ with rip := c.codeBase + (a + n1) + n2, flags := some f }, hsteps _ ?_, rel0_congr _ _ _ _ hrel rfl rfl, rfl, Or.inl ⟨hpc, ?_⟩⟩
+    · simp only [exec, hcc, hc]; rfl
+    · simp only [← hbe, Nat.add_assoc]
+  · refine ⟨2, { σ with rip := X86.relTarget (c.codeBase + (a + n1) + n2) rel, flags := some f }, hsteps _ ?_, ?_, ?_, Or.inr ⟨l, ?_, ?_⟩⟩
+    · simp only [exec, hcc, hc]; rfl
+    · rw [hs']; exact rel0_pc _ _ _ _ (rel0_congr _ _ _ _ hrel rfl rfl)
+    · rw [hs']; rfl
+    · rw [hpc']; exact htgt
+    · show X86.relTarget (c.codeBase + (a + n1) + n2) rel = c.codeBase + l
+      rw [Nat.add_assoc c.codeBase]
+      exact relTarget_lands _ _ _ _ hland (by rw [hbe]; exact hb)
+
+
+theorem jmp_exec_cmpRR (c : Cfg) (σ : St) (w : Bool) (src dst next : Nat) :
+    exec c σ (.aluRR w .cmp src dst) next = .next { σ with rip := next, flags := some (
+      flagsSub (if w then 64 else 32) (trunc (if w then 64 else 32) (σ.get dst)) (trunc (if w then 64 else 32) (σ.get src))) } := rfl
+
+theorem jmp_exec_cmpRI (c : Cfg) (σ : St) (w : Bool) (dst next : Nat) (imm : BitVec 32) :
+    exec c σ (.aluRI w .cmp dst imm) next = .next { σ with rip := next, flags := some (
+      flagsSub (if w then 64 else 32) (trunc (if w then 64 else 32) (σ.get dst)) (if w then (imm.signExtend 64).toNat else imm.toNat)) } := rfl
+
+theorem jmp_exec_testRR (c : Cfg) (σ : St) (w : Bool) (src dst next : Nat) :
+    exec c σ (.aluRR w .test src dst) next = .next { σ with rip := next, flags := some (
+      flagsLogic (if w then 64 else 32) (trunc (if w then 64 else 32) (σ.get dst) &&& trunc (if w then 64 else 32) (σ.get src))) } := rfl
+
+theorem jmp_exec_testRI (c : Cfg) (σ : St) (w : Bool) (dst next : Nat) (imm : BitVec 32) :
+    exec c σ (.aluRI w .test dst imm) next = .next { σ with rip := next, flags := some (
+      flagsLogic (if w then 64 else 32) (trunc (if w then 64 else 32) (σ.get dst) &&& (if w then (imm.signExtend 64).toNat else imm.toNat))) } := rfl
+
+theorem jmp_trunc64 (v : BitVec 64) : trunc 64 v = v.toNat := by
+  unfold trunc; exact Nat.mod_eq_of_lt v.isLt
+
+theorem jmp_trunc32 (v : BitVec 64) : trunc 32 v = (Interp.lo32 v).toNat := by
+  unfold trunc Interp.lo32; simp
+
+theorem jmp_rd (s : State) (k : Nat) (hk : k < 11) (f : BitVec 64 → Outcome) : Interp.rd s k f = f (s.reg.getD k 0) := by
+  unfold Interp.rd
+  simp [Vector.getD, hk]
+
+theorem jmp_arm_regs (haddr : Nat → Option Nat) (pc : Nat) (i : Insn) (nx : Option Insn) (r : List AI × Nat)
+    (h : JitAst.arm haddr pc i nx = .ok r) : i.dst.toNat < 11 ∧ i.src.toNat < 11 := by
+  refine ⟨?_, ?_⟩
+  · by_cases hd : i.dst.toNat < 11
+    · exact hd
+    · unfold JitAst.arm at h
+      rw [mapRegister_none _ (by omega)] at h
+      cases h
+  · by_cases hd : i.src.toNat < 11
+    · exact hd
+    · unfold JitAst.arm at h
+      rw [mapRegister_none i.src.toNat (by omega)] at h
+      split at h <;> first | cases h | simp_all
+
+
+local macro "jmp_cc" : tactic => `(tactic| (
+  simp only [↓reduceIte, Bool.false_eq_true, jmp_trunc64, jmp_trunc32, Interp.sx32,
+    jmp_sub64_e, jmp_sub64_ne, jmp_sub64_a, jmp_sub64_ae, jmp_sub64_b, jmp_sub64_be, jmp_sub64_g, jmp_sub64_ge, jmp_sub64_l, jmp_sub64_le,
+    jmp_sub32_e, jmp_sub32_ne, jmp_sub32_a, jmp_sub32_ae, jmp_sub32_b, jmp_sub32_be, jmp_sub32_g, jmp_sub32_ge, jmp_sub32_l, jmp_sub32_le,
+    jmp_test64, jmp_test32]))
+
+
+/-- outside the six sign-extending compare-with-immediate opcodes the generated code does what the interpreter does -/
+theorem jmp_jitExec_interp (env : Env) (s : State) (i : Insn)
+    (h : i.opc.toNat ∈ [0x05, 0x1d, 0x2d, 0x3d, 0xad, 0xbd, 0x45, 0x4d, 0x5d, 0x65, 0x6d, 0x75, 0x7d, 0xc5, 0xcd, 0xd5, 0xdd,
+      0x16, 0x1e, 0x26, 0x2e, 0x36, 0x3e, 0xa6, 0xae, 0xb6, 0xbe, 0x46, 0x4e, 0x56, 0x5e, 0x66, 0x6e, 0x76, 0x7e, 0xc6, 0xce, 0xd6, 0xde]) :
+    EngineSem.jitExec env s i = Interp.exec env s i := by
+  have h85 : i.opc ≠ 0x85 := by intro h'; rw [h'] at h; revert h; decide
+  have h95 : i.opc ≠ 0x95 := by intro h'; rw [h'] at h; revert h; decide
+  unfold EngineSem.jitExec EngineSem.cmpImmSigned EngineSem.xaddInsn
+  simp only [List.mem_cons, List.mem_nil_iff, or_false] at h
+  rcases h with h | h | h | h | h | h | h | h | h | h | h | h | h | h | h | h | h | h | h | h | h | h | h | h | h | h | h | h | h | h | h | h | h | h | h | h | h | h | h <;>
+    simp only [h, h85, h95, false_and, if_false]
+
+theorem jmp_ja_core (c : Cfg) (tgt : Tgt → Option Nat) (pc a b retAddr : Nat) (σ : St) (s s' : State) (off : BitVec 16)
+    (hchk : checkSeq c.code tgt a [.jmp (.pc ((pc : Int) + off.toInt + 1))] = some b)
+    (hb : c.codeBase + b < 2 ^ 63) (hrip : σ.rip = c.codeBase + a)
+    (hrel : Rel0 retAddr σ s) (hpc : s.pc = pc + 1)
+    (hex : Interp.branch s off true = .next s') :
+    ∃ k σ', stepsN c k σ = some σ' ∧ Rel0 retAddr σ' s' ∧ topBytes σ' s' = topBytes σ s ∧
+      ((s'.pc = pc + 1 ∧ σ'.rip = c.codeBase + b) ∨
+       (∃ l, tgt (.pc (s'.pc : Int)) = some l ∧ σ'.rip = c.codeBase + l)) := by
+  obtain ⟨n1, rel, l, hd1, htgt, hland, hchk2⟩ := checkSeq_jmp _ _ _ _ _ _ hchk
+  rw [checkSeq_nil] at hchk2
+  have hbe : a + n1 = b := by injection hchk2
+  have hs1 := step_at c σ a n1 (.jmp rel) hrip hd1
+  rcases jmp_branch_next s s' off true pc hpc hex with ⟨hc, _⟩ | ⟨_, hs', hpc'⟩
+  · cases hc
+  · refine ⟨1, { σ with rip := X86.relTarget (c.codeBase + a + n1) rel }, stepsN_one c _ _ (by rw [hs1]; rfl), ?_, ?_, Or.inr ⟨l, ?_, ?_⟩⟩
+    · rw [hs']; exact rel0_pc _ _ _ _ (rel0_congr _ _ _ _ hrel rfl rfl)
+    · rw [hs']; rfl
+    · rw [hpc']; exact htgt
+    · show X86.relTarget (c.codeBase + a + n1) rel = c.codeBase + l
+      rw [Nat.add_assoc c.codeBase]
+      exact relTarget_lands _ _ _ _ hland (by rw [hbe]; exact hb)
+
+attribute [local irreducible] Interp.rd Interp.branch
+
+set_option hygiene false in
+local macro "jmp_op" : tactic => `(tactic| (
+  intro c tgt haddr pc n a b retAddr ais σ env s s' harm hchk hb hrip hrel hpc hex
+  obtain ⟨hd, hs⟩ := jmp_arm_regs _ _ _ _ _ harm
+  unfold JitAst.arm at harm
+  rw [mapRegister_eq _ hd, mapRegister_eq _ hs, h] at harm
+  conv at harm => lhs; whnf
+  injection harm with harm
+  injection harm with hais hn
+  subst hais; subst hn
+  first
+  | (rw [jmp_jitExec_interp env s i (by rw [h]; decide)] at hex
+     unfold Interp.exec at hex
+     rw [h] at hex
+     conv at hex => lhs; whnf)
+  | (unfold EngineSem.jitExec EngineSem.cmpImmSigned at hex
+     simp only [h] at hex)
+  simp only [jmp_rd _ _ hd, jmp_rd _ _ hs, ← hrel.regs _ hd, ← hrel.regs _ hs] at hex
+  first
+  | exact jmp_cond_core c tgt pc a b retAddr σ s s' (.aluRR _ .cmp _ _) _ _ _ _ hchk hb hrip hrel hpc (fun _ => jmp_exec_cmpRR _ _ _ _ _ _) (by jmp_cc) hex
+  | exact jmp_cond_core c tgt pc a b retAddr σ s s' (.aluRI _ .cmp _ _) _ _ _ _ hchk hb hrip hrel hpc (fun _ => jmp_exec_cmpRI _ _ _ _ _ _) (by jmp_cc) hex
+  | exact jmp_cond_core c tgt pc a b retAddr σ s s' (.aluRR _ .test _ _) _ _ _ _ hchk hb hrip hrel hpc (fun _ => jmp_exec_testRR _ _ _ _ _ _) (by jmp_cc) hex
+  | exact jmp_cond_core c tgt pc a b retAddr σ s s' (.aluRI _ .test _ _) _ _ _ _ hchk hb hrip hrel hpc (fun _ => jmp_exec_testRI _ _ _ _ _ _) (by jmp_cc) hex))
+
+theorem jmp_op_05 (i : Insn) (h : i.opc.toNat = 0x05) : ArmSim i := by
+  intro c tgt haddr pc n a b retAddr ais σ env s s' harm hchk hb hrip hrel hpc hex
+  obtain ⟨hd, hs⟩ := jmp_arm_regs _ _ _ _ _ harm
+  unfold JitAst.arm at harm
+  rw [mapRegister_eq _ hd, mapRegister_eq _ hs, h] at harm
+  conv at harm => lhs; whnf
+  injection harm with harm
+  injection harm with hais hn
+  subst hais; subst hn
+  rw [jmp_jitExec_interp env s i (by rw [h]; decide)] at hex
+  unfold Interp.exec at hex
+  rw [h] at hex
+  conv at hex => lhs; whnf
+  exact jmp_ja_core c tgt pc a b retAddr σ s s' _ hchk hb hrip hrel hpc hex
+
+theorem jmp_op_15 (i : Insn) (h : i.opc.toNat = 0x15) : ArmSim i := by jmp_op
+theorem jmp_op_1d (i : Insn) (h : i.opc.toNat = 0x1d) : ArmSim i := by jmp_op
+theorem jmp_op_25 (i : Insn) (h : i.opc.toNat = 0x25) : ArmSim i := by jmp_op
+theorem jmp_op_2d (i : Insn) (h : i.opc.toNat = 0x2d) : ArmSim i := by jmp_op
+theorem jmp_op_35 (i : Insn) (h : i.opc.toNat = 0x35) : ArmSim i := by jmp_op
+theorem jmp_op_3d (i : Insn) (h : i.opc.toNat = 0x3d) : ArmSim i := by jmp_op
+theorem jmp_op_a5 (i : Insn) (h : i.opc.toNat = 0xa5) : ArmSim i := by jmp_op
+theorem jmp_op_ad (i : Insn) (h : i.opc.toNat = 0xad) : ArmSim i := by jmp_op
+theorem jmp_op_b5 (i : Insn) (h : i.opc.toNat = 0xb5) : ArmSim i := by jmp_op
+theorem jmp_op_bd (i : Insn) (h : i.opc.toNat = 0xbd) : ArmSim i := by jmp_op
+theorem jmp_op_45 (i : Insn) (h : i.opc.toNat = 0x45) : ArmSim i := by jmp_op
+theorem jmp_op_4d (i : Insn) (h : i.opc.toNat = 0x4d) : ArmSim i := by jmp_op
+theorem jmp_op_55 (i : Insn) (h : i.opc.toNat = 0x55) : ArmSim i := by jmp_op
+theorem jmp_op_5d (i : Insn) (h : i.opc.toNat = 0x5d) : ArmSim i := by jmp_op
+theorem jmp_op_65 (i : Insn) (h : i.opc.toNat = 0x65) : ArmSim i := by jmp_op
+theorem jmp_op_6d (i : Insn) (h : i.opc.toNat = 0x6d) : ArmSim i := by jmp_op
+theorem jmp_op_75 (i : Insn) (h : i.opc.toNat = 0x75) : ArmSim i := by jmp_op
+theorem jmp_op_7d (i : Insn) (h : i.opc.toNat = 0x7d) : ArmSim i := by jmp_op
+theorem jmp_op_c5 (i : Insn) (h : i.opc.toNat = 0xc5) : ArmSim i := by jmp_op
+theorem jmp_op_cd (i : Insn) (h : i.opc.toNat = 0xcd) : ArmSim i := by jmp_op
+theorem jmp_op_d5 (i : Insn) (h : i.opc.toNat = 0xd5) : ArmSim i := by jmp_op
+theorem jmp_op_dd (i : Insn) (h : i.opc.toNat = 0xdd) : ArmSim i := by jmp_op
+theorem jmp_op_16 (i : Insn) (h : i.opc.toNat = 0x16) : ArmSim i := by jmp_op
+theorem jmp_op_1e (i : Insn) (h : i.opc.toNat = 0x1e) : ArmSim i := by jmp_op
+theorem jmp_op_26 (i : Insn) (h : i.opc.toNat = 0x26) : ArmSim i := by jmp_op
+theorem jmp_op_2e (i : Insn) (h : i.opc.toNat = 0x2e) : ArmSim i := by jmp_op
+theorem jmp_op_36 (i : Insn) (h : i.opc.toNat = 0x36) : ArmSim i := by jmp_op
+theorem jmp_op_3e (i : Insn) (h : i.opc.toNat = 0x3e) : ArmSim i := by jmp_op
+theorem jmp_op_a6 (i : Insn) (h : i.opc.toNat = 0xa6) : ArmSim i := by jmp_op
+theorem jmp_op_ae (i : Insn) (h : i.opc.toNat = 0xae) : ArmSim i := by jmp_op
+theorem jmp_op_b6 (i : Insn) (h : i.opc.toNat = 0xb6) : ArmSim i := by jmp_op
+theorem jmp_op_be (i : Insn) (h : i.opc.toNat = 0xbe) : ArmSim i := by jmp_op
+theorem jmp_op_46 (i : Insn) (h : i.opc.toNat = 0x46) : ArmSim i := by jmp_op
+theorem jmp_op_4e (i : Insn) (h : i.opc.toNat = 0x4e) : ArmSim i := by jmp_op
+theorem jmp_op_56 (i : Insn) (h : i.opc.toNat = 0x56) : ArmSim i := by jmp_op
+theorem jmp_op_5e (i : Insn) (h : i.opc.toNat = 0x5e) : ArmSim i := by jmp_op
+theorem jmp_op_66 (i : Insn) (h : i.opc.toNat = 0x66) : ArmSim i := by jmp_op
+theorem jmp_op_6e (i : Insn) (h : i.opc.toNat = 0x6e) : ArmSim i := by jmp_op
+theorem jmp_op_76 (i : Insn) (h : i.opc.toNat = 0x76) : ArmSim i := by jmp_op
+theorem jmp_op_7e (i : Insn) (h : i.opc.toNat = 0x7e) : ArmSim i := by jmp_op
+theorem jmp_op_c6 (i : Insn) (h : i.opc.toNat = 0xc6) : ArmSim i := by jmp_op
+theorem jmp_op_ce (i : Insn) (h : i.opc.toNat = 0xce) : ArmSim i := by jmp_op
+theorem jmp_op_d6 (i : Insn) (h : i.opc.toNat = 0xd6) : ArmSim i := by jmp_op
+theorem jmp_op_de (i : Insn) (h : i.opc.toNat = 0xde) : ArmSim i := by jmp_op
+
 theorem armSim_jump (i : Insn) (h : i.opc.toNat ∈ jumpOpcodes) : ArmSim i := by
-  sorry
+  simp only [jumpOpcodes, List.mem_cons, List.mem_nil_iff, or_false] at h
+  rcases h with h | h | h | h | h | h | h | h | h | h | h | h | h | h | h | h | h | h | h | h | h | h | h | h | h | h | h | h | h | h | h | h | h | h | h | h | h | h | h | h | h | h | h | h | h
+  · exact jmp_op_05 i h
+  · exact jmp_op_15 i h
+  · exact jmp_op_1d i h
+  · exact jmp_op_25 i h
+  · exact jmp_op_2d i h
+  · exact jmp_op_35 i h
+  · exact jmp_op_3d i h
+  · exact jmp_op_a5 i h
+  · exact jmp_op_ad i h
+  · exact jmp_op_b5 i h
+  · exact jmp_op_bd i h
+  · exact jmp_op_45 i h
+  · exact jmp_op_4d i h
+  · exact jmp_op_55 i h
+  · exact jmp_op_5d i h
+  · exact jmp_op_65 i h
+  · exact jmp_op_6d i h
+  · exact jmp_op_75 i h
+  · exact jmp_op_7d i h
+  · exact jmp_op_c5 i h
+  · exact jmp_op_cd i h
+  · exact jmp_op_d5 i h
+  · exact jmp_op_dd i h
+  · exact jmp_op_16 i h
+  · exact jmp_op_1e i h
+  · exact jmp_op_26 i h
+  · exact jmp_op_2e i h
+  · exact jmp_op_36 i h
+  · exact jmp_op_3e i h
+  · exact jmp_op_a6 i h
+  · exact jmp_op_ae i h
+  · exact jmp_op_b6 i h
+  · exact jmp_op_be i h
+  · exact jmp_op_46 i h
+  · exact jmp_op_4e i h
+  · exact jmp_op_56 i h
+  · exact jmp_op_5e i h
+  · exact jmp_op_66 i h
+  · exact jmp_op_6e i h
+  · exact jmp_op_76 i h
+  · exact jmp_op_7e i h
+  · exact jmp_op_c6 i h
+  · exact jmp_op_ce i h
+  · exact jmp_op_d6 i h
+  · exact jmp_op_de i h
 
 end Rbpf.JitSim
